@@ -7,7 +7,7 @@
 
   event list:  `-` or events joined by `|`;   event: `<dest>:<etype>:<filters>`;
   filters: `-` or scripts joined by `+`;  script: A | R | S~key~val | D~key | C~src~dst | T~key | U~key | X | M~data
-  acts:  q | f:<slot><idx>:<fidx>:<data> | d:<slot><idx>:<dest>:<etype>:<data>:<visible output>
+  acts:  q | f:<etype>:<fidx>:<data> | d:<dest>:<etype>:<data>:<visible output>
 -/
 import EdzedModel.Output
 
@@ -46,16 +46,23 @@ def slotStr : Slot → String
   | .output => "o"
   | .every => "e"
 
-def actStr : Act → String
-  | .enqueue => "q"
-  | .filt sl i j d => s!"f:{slotStr sl}{i}:{j}:{d.render}"
-  | .deliver sl i dest et d vis => s!"d:{slotStr sl}{i}:{dest}:{et}:{d.render}:{vis.render}"
+/-- an act is printed with the event type of the configured event it belongs to (unique per `Event`
+    object in the harness; the position is the order of the acts) -/
+def etypeOf (c : Cfg) (sl : Slot) (i : Nat) : String :=
+  match (match sl with | .output => c.onOutput | .every => c.onEvery)[i]? with
+  | some e => e.etype
+  | none => "?"
 
-def stepStr (k : BKind) (s : Step) : String :=
+def actStr (c : Cfg) : Act → String
+  | .enqueue => "q"
+  | .filt sl i j d => s!"f:{etypeOf c sl i}:{j}:{d.render}"
+  | .deliver _ _ dest et d vis => s!"d:{dest}:{et}:{d.render}:{vis.render}"
+
+def stepStr (c : Cfg) (k : BKind) (s : Step) : String :=
   let r := match k with
     | .sblock => "r-"
     | .cblock => if s.changed then "r1" else "r0"
-  " ".intercalate (["ok", s.out.render, r] ++ s.acts.map actStr)
+  " ".intercalate (["ok", s.out.render, r] ++ s.acts.map (actStr c))
 
 def handle (s : DState) : List String → DState × String
   | ["reset", k, name, on, every] =>
@@ -74,7 +81,7 @@ def handle (s : DState) : List String → DState × String
       ({ s with out := r.after },
        match r.res with
        | .valueError => "err ValueError"
-       | .ok st => stepStr s.kind st)
+       | .ok st => stepStr s.cfg s.kind st)
     | none => (s, "bad-op")
   | ["fsm", v] =>
     -- an accepted FSM transition whose new state has the output `v` (sequential senders only)
@@ -87,7 +94,7 @@ def handle (s : DState) : List String → DState × String
         ({ s with out := r.after },
          match r.res with
          | .valueError => "err ValueError"
-         | .ok st => stepStr s.kind st)
+         | .ok st => stepStr s.cfg s.kind st)
     | _, _ => (s, "bad-op")
   | ["out"] => (s, s.out.render)
   | _ => (s, "bad-op")
